@@ -22,7 +22,7 @@ inductive Val
   | num (q : Rat)      -- int / float
   | str (s : String)
   | pynone
-  | callable           -- a function object: `clean()` does not delete it
+  | callable           -- a function object (deleted by `clean()` like any other value)
   deriving Repr, DecidableEq, BEq
 
 structure State where
@@ -137,9 +137,14 @@ def call (s : State) (a : Args) : Except Wire.Err State := do
   let s3 ← withWavelength s2 (match a.wavelength with | some w => w | none => Gen.Gv.callWavelength)
   pure { s3 with custom := a.kw.foldl setKw s3.custom }
 
-/-- does `clean()` leave this custom attribute in place?  (callable values and names starting with `__`) -/
+/-- the ten attributes `__init__` creates (grid fields of `State`; everything else in `vars(gv)` is a custom attribute) -/
+def standard : List String := ["sps", "R", "fs", "dt", "wavelength", "f0", "N", "t", "w", "dw"]
+
+/-- does `clean()` leave this custom attribute in place?  `clean()` deletes every name of `vars(self)` that is not in its
+    keep list (whatever the value: callables and `__…` names included), so a custom attribute survives only if the keep list
+    names something beyond the standard attributes -/
 def survives (kv : String × Val) : Bool :=
-  kv.2 == .callable || kv.1.startsWith "__" || Gen.Gv.cleanKeeps.contains kv.1
+  Gen.Gv.cleanKeeps.contains kv.1 && !standard.contains kv.1
 
 /-- `gv.clean()` -/
 def clean (s : State) : State :=
